@@ -490,6 +490,175 @@ theorem allBeforeEnd_eq_stdoutOf : ∀ (rs : List Rec),
         · have : (r.typ == 6) = false := by simpa using h6
           simp [this, he, ih']
 
+/-! ### reading call by call = reading the whole stream -/
+theorem recRead_shorter (conn c rest : Bytes) (e : RErr) (h : recRead conn = (some c, e, rest)) :
+    rest.length + 8 ≤ conn.length := by
+  unfold recRead at h
+  by_cases h0 : conn.length = 0
+  · simp [h0] at h
+  · simp only [h0, if_false] at h
+    cases hs : splitHeader conn with
+    | none => simp [hs] at h
+    | some x =>
+      obtain ⟨v, t, rid, cl, pl, r⟩ := x
+      obtain ⟨_, _, _, _, _, _, _, _, r', hc, hx⟩ := splitHeader_some conn _ hs
+      simp only [Prod.mk.injEq] at hx
+      have hr : r = r' := hx.2.2.2.2.2
+      have hlen : conn.length = r.length + 8 := by rw [hc, hr]; simp
+      simp only [hs] at h
+      split at h
+      · simp at h
+      · split at h
+        · simp at h
+        · split at h
+          · simp only [Prod.mk.injEq] at h; rw [← h.2.2]; omega
+          · split at h
+            · simp at h
+            · split at h
+              · simp at h
+              · simp only [Prod.mk.injEq] at h; rw [← h.2.2]; simp only [List.length_drop]; omega
+
+theorem recRead_none_ne_nil (conn : Bytes) (e : RErr) (rest : Bytes) (h : recRead conn = (none, e, rest)) :
+    e ≠ RErr.nil := by
+  unfold recRead at h
+  by_cases h0 : conn.length = 0
+  · simp only [h0, if_true, Prod.mk.injEq] at h; rw [← h.2.1]; simp
+  · simp only [h0, if_false] at h
+    cases hs : splitHeader conn with
+    | none => simp only [hs, Prod.mk.injEq] at h; rw [← h.2.1]; simp
+    | some x =>
+      obtain ⟨v, t, rid, cl, pl, r⟩ := x
+      simp only [hs] at h
+      split at h
+      · simp only [Prod.mk.injEq] at h; rw [← h.2.1]; simp
+      · split at h
+        · simp only [Prod.mk.injEq] at h; rw [← h.2.1]; simp
+        · split at h
+          · simp at h
+          · split at h
+            · simp only [Prod.mk.injEq] at h; rw [← h.2.1]; simp
+            · split at h
+              · simp only [Prod.mk.injEq] at h; rw [← h.2.1]; simp
+              · simp at h
+
+theorem readStream_drain : ∀ (f : Nat) (conn acc : Bytes),
+    readStream f conn acc = (acc ++ (drain f conn).1, toEnd (drain f conn).2) := by
+  intro f
+  induction f with
+  | zero => intro conn acc; simp [readStream, drain, toEnd]
+  | succ n ih =>
+    intro conn acc
+    unfold readStream drain recRead
+    by_cases h0 : conn.length = 0
+    · simp [h0, toEnd]
+    · simp only [h0, if_false]
+      cases hs : splitHeader conn with
+      | none => simp [toEnd]
+      | some x =>
+        obtain ⟨v, t, rid, cl, pl, r⟩ := x
+        simp only []
+        by_cases hv : v = 1
+        · subst hv
+          simp only [ne_eq, not_true_eq_false, if_false]
+          by_cases ht : t = 3
+          · simp [ht, toEnd]
+          · simp only [ht, if_false]
+            by_cases hn : cl + pl = 0
+            · have hcl : cl = 0 := by omega
+              have hpl : pl = 0 := by omega
+              subst hcl; subst hpl
+              simp [ih]
+            · simp only [hn, if_false]
+              by_cases hr0 : r.length = 0
+              · simp [hr0, toEnd]
+              · simp only [hr0, if_false]
+                by_cases hlt : r.length < cl + pl
+                · simp [hlt, toEnd]
+                · simp [hlt, ih, List.append_assoc]
+        · simp [hv, toEnd]
+
+theorem drain_succ (f : Nat) (conn : Bytes) : drain (f + 1) conn =
+    match recRead conn with
+    | (some c, _, rest) => (c ++ (drain f rest).1, (drain f rest).2)
+    | (none, e, _) => ([], e) := by
+  rfl
+
+theorem drain_fuel : ∀ (f g : Nat) (conn : Bytes), conn.length < f → conn.length < g → drain f conn = drain g conn := by
+  intro f
+  induction f with
+  | zero => intro g conn h; omega
+  | succ n ih =>
+    intro g conn hf hg
+    cases g with
+    | zero => omega
+    | succ m =>
+      unfold drain
+      cases hr : recRead conn with
+      | mk oc er =>
+        obtain ⟨e, rest⟩ := er
+        cases oc with
+        | none => rfl
+        | some c =>
+          have := recRead_shorter conn c rest e hr
+          simp only []
+          rw [ih m rest (by omega) (by omega)]
+
+/-- what is still to come from a reader state: the buffered rest of the current record, then all further records -/
+def remaining (st : RdState) : Bytes := st.buf ++ (drain (st.conn.length + 1) st.conn).1
+
+theorem readStep_spec (st : RdState) (s : Nat) (hs : 0 < s) :
+    ((readStep st s).2.2 = RErr.nil → remaining st = (readStep st s).2.1 ++ remaining (readStep st s).1) ∧
+    ((readStep st s).2.2 ≠ RErr.nil → remaining st = [] ∧ (readStep st s).2.1 = [] ∧
+      (drain (st.conn.length + 1) st.conn).2 = (readStep st s).2.2) := by
+  unfold readStep
+  have hs0 : ¬ s = 0 := by omega
+  simp only [hs0, if_false]
+  by_cases hb : st.buf.length = 0
+  · have hbn : st.buf = [] := List.eq_nil_of_length_eq_zero hb
+    simp only [hb, if_true]
+    cases hr : recRead st.conn with
+    | mk oc er =>
+      obtain ⟨e, rest⟩ := er
+      cases oc with
+      | none =>
+        have hd : drain (st.conn.length + 1) st.conn = ([], e) := by rw [drain_succ, hr]
+        constructor
+        · intro he
+          exact absurd he (recRead_none_ne_nil st.conn e rest hr)
+        · intro _
+          simp [remaining, hbn, hd]
+      | some c =>
+        have hsh := recRead_shorter st.conn c rest e hr
+        have hd : (drain (st.conn.length + 1) st.conn).1 = c ++ (drain (rest.length + 1) rest).1 := by
+          rw [drain_succ, hr]
+          simp only []
+          rw [drain_fuel st.conn.length (rest.length + 1) rest (by omega) (by omega)]
+        constructor
+        · intro _
+          simp only [remaining, hbn, hd, List.nil_append]
+          rw [← List.append_assoc, List.take_append_drop]
+        · intro h; exact absurd rfl h
+  · simp only [hb, if_false]
+    constructor
+    · intro _
+      simp only [remaining]
+      rw [← List.append_assoc, List.take_append_drop]
+    · intro h; exact absurd rfl h
+
+theorem stepsFrom_spec : ∀ (sizes : List Nat) (st : RdState), (∀ s ∈ sizes, 0 < s) →
+    (∀ p ∈ (stepsFrom st sizes).1, p.2 = RErr.nil) →
+    ∃ st', remaining st = (stepsFrom st sizes).2 ++ remaining st' := by
+  intro sizes
+  induction sizes with
+  | nil => intro st _ _; exact ⟨st, by simp [stepsFrom]⟩
+  | cons s ss ih =>
+    intro st hpos hnil
+    simp only [stepsFrom] at hnil ⊢
+    have h1 := (readStep_spec st s (hpos s (List.mem_cons_self ..))).1 (hnil _ (List.mem_cons_self ..))
+    obtain ⟨st', h2⟩ := ih (readStep st s).1 (fun x hx => hpos x (List.mem_cons_of_mem _ hx))
+      (fun p hp => hnil p (List.mem_cons_of_mem _ hp))
+    exact ⟨st', by rw [h1, h2, List.append_assoc]⟩
+
 /-! ### environment building -/
 theorem lookup_append (k : Bytes) (a b : List Op) : lookup k (a ++ b) = b.foldl (step k) (lookup k a) := by
   simp [lookup, List.foldl_append]
